@@ -104,6 +104,9 @@ def run(ck):
     # word-precision rounding: the number of index words kept is ceil(required bits / word size); consecutive lambdas walk the required
     # precision through every residue modulo the word size, for both index widths (a table that keeps too few bits exceeds its bound)
     tvsets += [((3.0, lam, 1, "0.3", "d"), inb, 1) for lam in range(40, 56) for inb in (8, 16)]
+    # sigmas whose square is not a double (a constant of the law computed in double instead of at the working precision moves every barrier by
+    # about 2^-54 relative: invisible below lambda ~ 50, far above the bound for the usual lambda)
+    tvsets += [((3.19, 128, 1024, "0", "d"), 8, 1), ((1.1, 96, 16, "0.3", "d"), 16, 1), ((8.01, 90, 1, "-1.5", "d"), 16, 2)]
     import math
     def tv_one(item):
         prm, inb, depth = item
